@@ -4,7 +4,7 @@ import common, driver, gens_ast, gens, impl
 from sexpr import enc
 from odata_query import ast, utils
 
-PROP_MODS = ["ODataVerif.Props.C17"]
+PROP_MODS = ["ODataVerif.Props.C17", "ODataVerif.Props.C17Path"]
 VARS = [ast.Identifier("x"), ast.Identifier("t"), ast.Identifier("a"), ast.Identifier("name"), ast.Identifier("x", ("ns",)),
         ast.Identifier("k1"), ast.Identifier("zz")]
 
